@@ -126,7 +126,38 @@ func genC09(r *Rand, n int, thorough bool, emit func(string)) {
 			scale = 2000
 		}
 		l := distinctList(r, 14, scale)
-		emit(fmt.Sprintf("f2r %s %d %d", showInts(l), r.Intn(2), r.Range(0, 6)))
+		z := r.Range(0, 6)
+		if r.Chance(1, 10) {
+			z = r.Range(7, 24)
+		}
+		emit(fmt.Sprintf("f2r %s %d %d", showInts(l), r.Intn(2), z))
+		if i%25 == 11 {
+			// a contiguous run of 17-60 frames (either direction) with two interior frames swapped or
+			// another run spliced into the middle: every 16th frame is where a sorted run would have it
+			a := r.Range(-50, 50)
+			ln := r.Range(17, 60)
+			d := 1
+			if r.Bool() {
+				d = -1
+			}
+			run := make([]int, ln)
+			for j := range run {
+				run[j] = a + d*j
+			}
+			switch r.Intn(3) {
+			case 0:
+				x, y := r.Range(1, ln-2), r.Range(1, ln-2)
+				run[x], run[y] = run[y], run[x]
+			case 1:
+				x := r.Range(1, 15)
+				run[x], run[x+1] = run[x+1], run[x]
+			default:
+				at := r.Range(2, ln-2)
+				ins := []int{1000, 1002, 1004}
+				run = append(run[:at:at], append(ins, run[at:]...)...)
+			}
+			emit(fmt.Sprintf("f2r %s 0 %d", showInts(run), r.Range(0, 4)))
+		}
 	}
 }
 
@@ -217,6 +248,23 @@ func genC08(r *Rand, n int, thorough bool, emit func(string)) {
 			txt = sprinkle(r, txt)
 		}
 		emit(fmt.Sprintf("fs.norm %s %d", hx(txt), r.Range(0, 6)))
+		if i%200 == 57 {
+			// hundreds of single-frame blocks (a fill component) whose max-min is a multiple of 64
+			a := r.Range(-100, 1100)
+			span := 64 * r.Range(12, 40)
+			emit(fmt.Sprintf("fs.norm %s %d", hx(fmt.Sprintf("%d-%dy%d", a, a+span, r.Range(3, 5))), r.Range(0, 4)))
+		}
+		if i%50 == 31 {
+			// strides and gaps beyond 1024 inside a block, with further blocks behind it
+			a := r.Range(-20, 2000)
+			st := r.Range(1025, 3000)
+			k := r.Range(2, 4)
+			t := fmt.Sprintf("%d-%dx%d,%d", a, a+k*st, st, a+k*st+r.Range(1, 2500))
+			if r.Bool() {
+				t = fmt.Sprintf("%d,%d,%d,%d", a, a+st, a+2*st+1, a+2*st+r.Range(2, 1500))
+			}
+			emit(fmt.Sprintf("fs.norm %s %d", hx(t), r.Range(0, 4)))
+		}
 	}
 }
 
